@@ -31,15 +31,8 @@ theorem silent_getDataImpl (s : Sock) (v : Version) : SilentAttempt s 1 (getData
 theorem silent_query (port : Nat) (v : Version) (retries : Nat) (w : Net) (hf : w.faults = [])
     (hp : PendingSilent false (retries + 1) w.pending) :
     SilentOutcome w (query port v retries w) (retries + 1) (retries + 1) := by
-  have h := SilentRun.openSock (tcp := false) (k := 1 * (retries + 1)) (b := retries + 1)
-    (f := fun s => getDataOn s retries v >>= fun d => parse (parseBody v) d)
-    (fun s _ => ((silent_getDataImpl s v).retry retries).bind_left _) port w hf hp
-  rw [Nat.one_mul] at h
-  have e : query port v retries w
-      = (openSock false port >>= fun s => getDataOn s retries v >>= fun d => parse (parseBody v) d) w := by
-    unfold query getData
-    rw [Q.bind_assoc']
-  rw [e]
-  exact h
+  unfold query getData
+  rw [Q.bind_assoc']
+  exact SilentRun.openSock (fun s _ => ((silent_getDataImpl s v).retry1 retries).bind_left _) port w hf hp
 
 end Gd.Quake
